@@ -501,6 +501,8 @@ def run(ctx):
                     ctx.violation("eiggrad/svd/raise", "svd gradient (%dx%d, k=%d) raised %s: %s" % (m_, n_, k, type(e).__name__, str(e)[:120]), {"m": m_, "n": n_})
     from vlib import operandpattern
     ctx.replayed = ninj + operandpattern.replay(ctx, ["symeig"], "eiggrad")
+    from vlib import objstate
+    ctx.replayed += objstate.replay(ctx, ["symeig", "symeig-davidson"], "eiggrad")
     ctx.notes.update(davidson_cases_skipped_for_inaccurate_forward=skipped[0], injection_cases=ninj, table_cases=ntab, tlc_garbage_choices=len(cases))
     ctx.assumptions += [
         "losses are basis-independent inside every degenerate block: sum_b c_b sum_{i in b} lambda_i + w_b tr(P_b G)",
